@@ -35,6 +35,9 @@ func (check typecheck) op(p opPredicates, a action, n, c *node, t reflect.Type) 
 //
 // Use typ == nil to indicate assignment to an untyped blank identifier.
 func (check typecheck) assignment(n *node, typ *itype, context string) error {
+	if err := check.singleValue(n); err != nil {
+		return err
+	}
 	if n.typ == nil {
 		return n.cfgErrorf("invalid type in %s", context)
 	}
@@ -83,6 +86,24 @@ func (check typecheck) assignExpr(n, dest, src *node) error {
 	}
 
 	return check.binaryExpr(n)
+}
+
+// singleValue checks that expression n, used as an operand, is not a call of
+// a function which returns several values or no value.
+func (check typecheck) singleValue(n *node) error {
+	for n.kind == parenExpr {
+		n = n.lastChild()
+	}
+	if !isCall(n) || n.child[0].typ == nil {
+		return nil
+	}
+	switch t := n.child[0].typ; {
+	case t.numOut() > 1:
+		return n.cfgErrorf("multiple-value function call in single-value context")
+	case t.numOut() == 0 && (t.cat == funcT || t.cat == valueT):
+		return n.cfgErrorf("function call (no value) used as value")
+	}
+	return nil
 }
 
 // addressExpr type checks a unary address expression.
@@ -138,6 +159,9 @@ func (check typecheck) unaryExpr(n *node) error {
 	c0 := n.child[0]
 	if isBlank(c0) {
 		return n.cfgErrorf("cannot use _ as value")
+	}
+	if err := check.singleValue(c0); err != nil {
+		return err
 	}
 	t0 := c0.typ.TypeOf()
 
@@ -236,6 +260,11 @@ func (check typecheck) binaryExpr(n *node) error {
 	if isBlank(c0) || isBlank(c1) {
 		return n.cfgErrorf("cannot use _ as value")
 	}
+	for _, c := range n.child[:2] {
+		if err := check.singleValue(c); err != nil {
+			return err
+		}
+	}
 
 	a := n.action
 	if isAssignAction(a) {
@@ -298,6 +327,9 @@ func zeroConst(n *node) bool {
 }
 
 func (check typecheck) index(n *node, max int) error {
+	if err := check.singleValue(n); err != nil {
+		return err
+	}
 	if err := check.convertUntyped(n, check.scope.getType("int")); err != nil {
 		return err
 	}
